@@ -42,6 +42,7 @@ type tcase struct {
 	HPresent []int             `json:"hpresent"`
 	Txs      [][]int           `json:"txs"`
 	Tv       string            `json:"tv"`
+	Cv       string            `json:"cv"`
 }
 
 // tryWhere runs f; on a panic it reports the innermost function of the node
@@ -223,7 +224,7 @@ func roundTrip(kind string, v interface{}, src string, cls map[string]string) {
 
 func parseEvent(kind string, in []byte, src string, c *tcase) {
 	ev := map[string]interface{}{"event": "Parse", "kind": kind, "src": src, "in": hex.EncodeToString(in),
-		"present": []int{}, "hpresent": []int{}, "txs": [][]int{}, "tv": "valid"}
+		"present": []int{}, "hpresent": []int{}, "txs": [][]int{}, "tv": "valid", "cv": "typical"}
 	if c != nil {
 		if c.Present != nil {
 			ev["present"] = c.Present
@@ -236,6 +237,9 @@ func parseEvent(kind string, in []byte, src string, c *tcase) {
 		}
 		if c.Tv != "" {
 			ev["tv"] = c.Tv
+		}
+		if c.Cv != "" {
+			ev["cv"] = c.Cv
 		}
 	}
 	o := doParse(kind, in)
@@ -295,6 +299,9 @@ func encPresence(c *tcase, rng *rand.Rand) []byte {
 	if tv == "" {
 		tv = "valid"
 	}
+	oddContent = strings.HasPrefix(c.Cv, "odd")
+	oddField = strings.TrimPrefix(strings.TrimPrefix(c.Cv, "odd"), ":")
+	defer func() { oddContent, oddField = false, "" }()
 	switch c.Kind {
 	case "tx":
 		return encTx(c.Present, rng)
